@@ -65,7 +65,21 @@ func checkAddFeature(c *Ctx, rule string) {
 	// GetSequence goes through the parent pointer
 	gfs := c.W.fn("", "getFeatureSequence")
 	if gfs == nil {
-		c.missing(rule, "getFeatureSequence", "poly.getFeatureSequence")
+		// by role: what Feature.GetSequence calls in its own package
+		if gsq := c.W.method("", "Feature", "GetSequence"); gsq != nil {
+			for _, g := range family(gsq) {
+				if g != gsq {
+					gfs = g
+					break
+				}
+			}
+			if gfs == nil {
+				gfs = gsq
+			}
+		}
+	}
+	if gfs == nil {
+		c.missingHelper(rule, "GetSequence evaluator", "the evaluator behind Feature.GetSequence")
 		return
 	}
 	c.useFn(gfs)
